@@ -51,11 +51,16 @@ Theorem C04_partial :
     (* the result stream is the oldest part of the log, without duplicates, and only completed targets have a result *)
     (exists k, reported s = skipn k (trace s)) /\
     (forall t, tends t (reported s) <= 1 /\ tstarts t (reported s) <= 1 /\ (1 <= tends t (reported s) -> completed (ts s t) = true)) /\
+    (* whoever FinishBuild has woken sees a final state: built, or at / above DependencyFailed (never the Building of a
+       failure path that has not stored Failed yet) *)
+    (forall d, fin s d = true ->
+       completed (ts s d) = true /\ (is_built (ts s d) = false -> st_geb (ts s d) dep_failed_threshold = true)) /\
     (* outside the defect class the full statement holds *)
     (defect_class s = None -> forall t, tends t (reported s) = if completed (ts s t) then 1 else 0).
 Proof.
   intros g s Hr. split; [exact (once g s Hr)|]. split; [exact (after_deps g s Hr)|]. split; [exact (logged_once g s Hr)|].
   split; [exact (reported_prefix s)|]. split; [exact (reported_at_most_once g s Hr)|].
+  split; [exact (woken_sees_final g s Hr)|].
   intros Hd t. unfold defect_class in Hd. destruct (Nat.ltb (nfwd s) (length (trace s))) eqn:E; [discriminate|].
   apply PeanoNat.Nat.ltb_ge in E. pose proof (nfwd_le g s Hr).
   rewrite (reported_all_when_drained s) by (apply PeanoNat.Nat.le_antisymm; assumption). exact (logged_once g s Hr t).
